@@ -137,7 +137,8 @@ def float_source(g, sid, params, count, nan=0.0, ptype='float', inf=0.0):
 def render_source(g, s):
     aid = s['id'] + '-array'
     arrtag = {'float': 'float_array', 'Name': 'Name_array', 'IDREF': 'IDREF_array'}[s['kind']]
-    arr = g.el(arrtag, [('id', aid), ('count', str(len(s['tokens'])))], g.join(s['tokens']))
+    text = g.join(s['tokens']) if s['tokens'] or 'blank' not in s else s['blank']
+    arr = g.el(arrtag, [('id', aid), ('count', str(len(s['tokens'])))], text)
     stride = len(s['params'])
     params = ''.join(g.el('param', [('name', p), ('type', s.get('ptype', 'float'))]) for p in s['params'])
     acc = g.el('accessor', [('source', '#' + aid), ('count', str(len(s['tokens']) // max(stride, 1))),
@@ -175,6 +176,10 @@ def gen_geometry(g):
     texs = [add_src('tex', rng.choice(TEX_PARAM_FORMS)) for _ in range(rng.choice([0, 1, 2, 3]))]
     cols = [add_src('col', rng.choice([['R', 'G', 'B'], ['R', 'G', 'B', 'A']])) for _ in range(rng.choice([0, 0, 1]))]
     tans = [add_src('tan', ['X', 'Y', 'Z']) for _ in range(rng.choice([0, 0, 0, 1, 2]))]
+    if g.chance(0.12):
+        # a source nothing refers to, without any value (absent, empty or blank text)
+        srcs.append({'id': g.fid(gid + '-void'), 'kind': 'float', 'tokens': [], 'params': ['X', 'Y', 'Z'], 'ptype': 'float',
+                     'blank': rng.choice([None, '', ' ', '\n\t '])})
     rng.shuffle(srcs)
     # <vertices>
     vid = g.fid(gid + '-vtx')
